@@ -40,7 +40,7 @@ pub mod c16;
 pub mod c18;
 #[cfg(kani)]
 pub mod tables;
-#[cfg(kani)]
+#[cfg(all(kani, feature = "bench"))]
 pub mod bench;
 
 // filled in by `run.py --replay` with a Kani concrete-playback unit test
